@@ -123,7 +123,10 @@ static Verdict judge(bool victim_server, bool ecdhe, bool cauth, bool resumed, c
         else v.sig = fmt("completed-with-unexpected-%s", tok_name[x.t]);
         break;
     }
-    if (v.viol_at < 0 && v.done_at < 0) { v.sig = k + 1 == e.size() ? "completed-without-finished" : fmt("completed-with-missing-%s", tok_name[e[k].t]); }
+    // DTLS: a record that is dropped (wrong epoch / protection, foreign body...) and later RETRANSMITTED intact is ordinary loss recovery: no verdict
+    if (dtls && v.viol_at >= 0 && v.done_at < 0)
+        for (size_t j = (size_t) v.viol_at + 1; j < tk.size(); j++) if (tk[j].retransmit && tk[j].t == tk[v.viol_at].t) { v.unk_at = v.viol_at; v.viol_at = -1; v.sig.clear(); break; }
+    if (v.viol_at < 0 && v.done_at < 0 && v.unk_at < 0) { v.sig = k + 1 == e.size() ? "completed-without-finished" : fmt("completed-with-missing-%s", tok_name[e[k].t]); }
     return v;
 }
 
@@ -314,6 +317,9 @@ static bool apply_op(Op &op, std::vector<Item> &it, const Mode &m) {
         if (tok_of_hs_type(op.arg) == tk && tk != T_OTHER) break;
         op.text = fmt("retag@%d(%s->type %d)", pos, tok_short[tk], op.arg);
         it[pos].st.type_override = (it[pos].st.msg < 0x100 && op.arg == it[pos].st.msg) ? -1 : op.arg;   // back to its own type: honest again
+        // HelloRequest and ServerHelloDone both have an empty body: re-tagging one as the other IS the other message
+        if (it[pos].st.msg == pup::M_HELLO_REQUEST && op.arg == pup::M_SERVER_HELLO_DONE) { it[pos].st.msg = pup::M_SERVER_HELLO_DONE; it[pos].st.type_override = -1; }
+        else if (it[pos].st.msg == pup::M_SERVER_HELLO_DONE && op.arg == pup::M_HELLO_REQUEST) { it[pos].st.msg = pup::M_HELLO_REQUEST; it[pos].st.type_override = -1; }
         return true;
     }
     case O_SUBST: {
